@@ -569,6 +569,10 @@ func (x *executor) verify(key string) (err error) {
 			t = ev.evalBool(ax.cl.e)
 		}
 		st.assume(t)
+		if x.c.axiomAsserts == nil {
+			x.c.axiomAsserts = map[*T]bool{}
+		}
+		x.c.axiomAsserts[t] = true
 		x.axiomsUsed[ax.name] = true
 	}
 	x.entry = st.clone()
